@@ -502,7 +502,17 @@ func runC26(c *Ctx) {
 				next = true
 			}
 		}
-		c.Check(front && next, "deterministic-lookup", "mem/vm.processTable.reverseLookup", p.Decl(f).Pos(), "walks the insertion-ordered list", "reverse lookup within a process must walk the insertion-ordered list (a map walk would make the result depend on iteration order)")
+		rangesMap := false
+		for _, b := range fn.Blocks {
+			for _, in := range b.Instrs {
+				if rg, isR := in.(*ssa.Range); isR {
+					if _, isMap := rg.X.Type().Underlying().(*types.Map); isMap {
+						rangesMap = true
+					}
+				}
+			}
+		}
+		c.Check((front && next) || !rangesMap, "deterministic-lookup", "mem/vm.processTable.reverseLookup", p.Decl(f).Pos(), "walks the insertion-ordered list (or uses keyed lookups only)", "reverse lookup within a process iterates over a map: the page it returns when several share a frame depends on Go's iteration order")
 	}
 	// save order
 	if f := c.fn("save-order", "mem/vm", "pageTableImpl", "SaveCheckpoint"); f != nil {
